@@ -744,6 +744,10 @@ class ModuleVistor(NodeVisitor):
             if obj is None:
                 warn("Unable to figure out target for __doc__ assignment: "
                      "computed full name not found: " + full_name)
+            elif isinstance(obj, model.Module):
+                # The module has been imported, so it has already run: process it first,
+                # such that the assignment overrides the module's own docstring (and not the contrary).
+                self.system.getProcessedModule(full_name)
 
         # Determine docstring value.
         try:
